@@ -9,7 +9,7 @@
 From Coq Require Import List NArith ZArith Bool Lia.
 From PQ Require Import Base.Bytes Search.Model Search.Proofs
      Stats.Order Stats.OrderProofs Stats.Model Stats.Proofs Stats.Instances Stats.Kinds Stats.Decimal
-     Stats.Multi Stats.MultiProofs.
+     Stats.Multi Stats.MultiProofs Stats.Deprecated Stats.DeprecatedProofs.
 Import ListNotations.
 Open Scope Z_scope.
 
@@ -104,6 +104,68 @@ Print Assumptions C05_chunk_stats_sound.
 Print Assumptions C05_chunk_stats_sound_any_pages.
 Print Assumptions C05_chunk_stats_sound_bytes.
 Print Assumptions C05_chunk_counts_exact.
+
+(** * Deprecated min / max of the column chunk statistics: writer.go recordPageStats,
+      option DeprecatedDataPageStatistics *)
+
+(** [chunk_dep_num k dep ps] / [chunk_dep_byte k dep ps] model the fields
+    Statistics.Min / Statistics.Max of a column chunk (Stats/Deprecated.v: they
+    are assigned inside the branches of recordPageStats that assign
+    MinValue / MaxValue).  For every list of pages - any number of pages, bounds
+    moving on any page, byte strings of any length - they are the chunk's
+    min_value / max_value when the option is set and absent otherwise; hence,
+    for pages whose recorded bounds are sound, they are bounds of every non-NaN
+    value of the chunk in the column order and values of the chunk. *)
+Theorem C05_chunk_deprecated_is_min_max_value : forall (k : numkind) (dep : bool) ps,
+  chunk_dep_num k dep ps = dep_of_bounds dep (cs_bounds (chunk_num k ps)).
+Proof. exact chunk_dep_num_spec. Qed.
+
+Theorem C05_chunk_deprecated_is_min_max_value_bytes : forall (k : bytekind) (dep : bool) ps,
+  chunk_dep_byte k dep ps = dep_of_bounds dep (cs_bounds (chunk_byte k ps)).
+Proof. exact chunk_dep_byte_spec. Qed.
+
+Theorem C05_chunk_deprecated_stats_sound : forall (k : numkind) ps valss,
+  Forall2 (page_sound N (cmp_num k) (nan_num k)) ps valss ->
+  match chunk_dep_num k true ps with
+  | (Some mn, Some mx) =>
+      within N (cmp_num k) (nan_num k) mn mx (concat valss) /\
+      In mn (concat valss) /\ In mx (concat valss) /\
+      (has_value N (nan_num k) (concat valss) -> nan_num k mn = false /\ nan_num k mx = false)
+  | (None, None) => concat valss = []
+  | _ => False
+  end.
+Proof. exact num_chunk_deprecated_sound. Qed.
+
+Theorem C05_chunk_deprecated_stats_sound_bytes : forall ps valss,
+  Forall2 (page_sound bytes cmp_bytes (fun _ => false)) ps valss ->
+  match chunk_dep_byte BBytes true ps with
+  | (Some mn, Some mx) =>
+      within bytes cmp_bytes (fun _ => false) mn mx (concat valss) /\ In mn (concat valss) /\ In mx (concat valss)
+  | (None, None) => concat valss = []
+  | _ => False
+  end.
+Proof. exact bytes_chunk_deprecated_sound. Qed.
+
+Print Assumptions C05_chunk_deprecated_is_min_max_value.
+Print Assumptions C05_chunk_deprecated_is_min_max_value_bytes.
+Print Assumptions C05_chunk_deprecated_stats_sound.
+Print Assumptions C05_chunk_deprecated_stats_sound_bytes.
+
+(** non-vacuity: pages "m","m" | "zz","n" (the maximum grows in length on the
+    second page), and a minimum that becomes shorter on the third page *)
+Example C05_ex_deprecated_longer_max :
+  chunk_dep_byte BBytes true
+    [ {| pi_num_values := 2; pi_num_nulls := 0; pi_bounds := Some ([109], [109]) |};
+      {| pi_num_values := 2; pi_num_nulls := 0; pi_bounds := Some ([110], [122; 122]) |} ]%N
+  = (Some [109]%N, Some [122; 122]%N).
+Proof. vm_compute. reflexivity. Qed.
+Example C05_ex_deprecated_shorter_min :
+  chunk_dep_byte BBytes true
+    [ {| pi_num_values := 2; pi_num_nulls := 0; pi_bounds := Some ([109; 109], [109; 109; 109]) |};
+      {| pi_num_values := 2; pi_num_nulls := 0; pi_bounds := Some ([110; 110], [110; 110]) |};
+      {| pi_num_values := 2; pi_num_nulls := 0; pi_bounds := Some ([97], [110]) |} ]%N
+  = (Some [97]%N, Some [110; 110]%N).
+Proof. vm_compute. reflexivity. Qed.
 
 (** * Truncation of byte-array bounds: column_index.go truncateLarge* *)
 
